@@ -259,6 +259,9 @@ def bounds():
     for n in (1, 99, 100, 998, 999):
         lab = 'l' * n
         yield ('bounds', ['[%s]: /u' % lab, '', '[%s] [t][%s]' % (lab, lab)], '<p><a href="/u">%s</a> <a href="/u">t</a></p>\n' % lab, dict(what='label length', n=n), False)
+    for n in (1000, 1001):
+        lab = 'l' * n
+        yield ('bounds', ['[%s]: /u' % lab, '', '[%s] [t][%s]' % (lab, lab)], '<p>[%s]: /u</p>\n<p>[%s] [t][%s]</p>\n' % (lab, lab, lab), dict(what='label too long', n=n), False)
     # autolink scheme: 2-32 characters
     for n in (1, 2, 3, 31, 32, 33):
         sch = 'a' * n
